@@ -814,3 +814,452 @@ impl Property for C09 {
         })
     }
 }
+
+// ======================================================================= C19
+
+pub struct C19;
+
+const C19_APEXES: [&str; 3] = ["v.test.", "w.test.", "x.test."];
+
+fn c19_zone_content(apex: &str, version: u32, extra: bool) -> String {
+    let h = |s: &str| child_name(s, apex);
+    let mut recs = vec![
+        Rec::new(&h("ver"), &format!("TXT v{version}"), 300),
+        Rec::new(&h("www"), &format!("A 10.{}.0.1", version % 250), 300),
+        Rec::new(&h("www"), &format!("A 10.{}.0.2", version % 250), 300),
+        Rec::new(&h("alias"), &format!("CNAME {}", h("www")), 300),
+    ];
+    if extra {
+        recs.push(Rec::new(&h(&format!("only{version}")), &format!("A 10.{}.9.9", version % 250), 300));
+    }
+    if version % 3 == 0 {
+        recs.push(Rec {
+            owner: h("w"),
+            wild: true,
+            data: format!("TXT wild-v{version}"),
+            ttl: 300,
+        });
+    }
+    let soa = format!("SOA ns.{apex} admin.{apex} {version} 3600 600 86400 60");
+    zone_text(Some((apex, &soa)), &recs)
+}
+
+fn c19_corrupt(r: &mut Rng, apex: &str) -> String {
+    match r.below(5) {
+        0 => format!("{apex} 300 IN SOA ns.{apex} admin.{apex} 1 3600 600 86400 60\nwww.{apex} 300 IN A not-an-address\n"),
+        1 => format!("{apex} 300 IN SOA ns.{apex} admin.{apex} 1 3600 600 86400 60\nwww.{apex} 300 IN TXT ( unbalanced\n"),
+        2 => "$INCLUDE other.zone\n".to_string(),
+        3 => format!("{apex} 300 IN SOA ns.{apex} admin.{apex} 1 3600 600 86400 60\nwww.elsewhere.invalid. 300 IN A 10.0.0.1\n"),
+        _ => format!("{apex} 300 IN SOA ns.{apex} admin.{apex} 1 3600 600 86400 60\n{apex} 300 IN SOA ns.{apex} admin.{apex} 2 3600 600 86400 60\n"),
+    }
+}
+
+fn gen_c19(seed: u64, _index: u64, tier: Tier) -> ServerPlan {
+    use crate::server_engine::{OperatorAction, OperatorStep};
+    let mut r = Rng::new(seed);
+    let n_zones = r.range(1, 3) as usize;
+    let mut files: Vec<FileSpec> = Vec::new();
+    let mut zone_paths: Vec<(String, String)> = Vec::new(); // (path, apex)
+    let mut version = 1u32;
+    for (i, apex) in C19_APEXES.iter().enumerate().take(n_zones) {
+        let explicit = i == 0 && r.chance(0.4);
+        let path = if explicit {
+            format!("explicit/{}.zone", apex.trim_end_matches('.'))
+        } else {
+            format!("zones/{:02}-{}.zone", 10 * (i + 1), apex.trim_end_matches('.'))
+        };
+        files.push(FileSpec {
+            path: path.clone(),
+            content: c19_zone_content(apex, version, false),
+        });
+        zone_paths.push((path, (*apex).to_string()));
+    }
+    files.push(FileSpec {
+        path: "hosts/10-hosts".into(),
+        content: format!("192.168.{version}.1 printer.lan\n"),
+    });
+    let args = ServerArgs {
+        zone_file: zone_paths.iter().filter(|(p, _)| p.starts_with("explicit/")).map(|(p, _)| p.clone()).collect(),
+        zones_dir: vec!["zones".into()],
+        hosts_file: Vec::new(),
+        hosts_dir: vec!["hosts".into()],
+    };
+    let n_phases = match tier {
+        Tier::Quick => r.range(1, 4),
+        Tier::Thorough => r.range(1, 6),
+    };
+    let mut operator: Vec<OperatorStep> = Vec::new();
+    let mut messages: Vec<MsgPlan> = Vec::new();
+    let mut present: Vec<(String, String)> = zone_paths.clone();
+    let mut removed: Vec<(String, String)> = Vec::new();
+    let phase_len = 2_000u64;
+    let mut id: u16 = 100;
+    let mut ask = |at_ms: u64, r: &mut Rng, messages: &mut Vec<MsgPlan>| {
+        let apex = *r.pick(&C19_APEXES);
+        let (name, qtype) = match r.below(7) {
+            0 | 1 => (child_name("ver", apex), "TXT"),
+            2 => (child_name("www", apex), "A"),
+            3 => (child_name("alias", apex), "A"),
+            4 => (child_name(&format!("only{}", r.range(1, 6)), apex), "A"),
+            5 => ("printer.lan.".to_string(), "A"),
+            _ => (child_name("x.w", apex), "TXT"),
+        };
+        id += 1;
+        let mut q = Message::from_question(id, question(&name, qtype));
+        q.header.recursion_desired = r.chance(0.3);
+        messages.push(MsgPlan {
+            at_ms,
+            proto: if r.chance(0.25) { "tcp".into() } else { "udp".into() },
+            bytes_hex: hex(&q.to_octets().expect("HARNESS: query")),
+            prefix: None,
+            cut_at: None,
+            piece: 0,
+            piece_gap_ms: 0,
+            after: "wait".into(),
+            listen_ms: 1_500,
+            what: format!("query {name} {qtype}"),
+        });
+    };
+    for _ in 0..r.range(1, 3) {
+        ask(r.range(0, 300), &mut r, &mut messages);
+    }
+    for phase in 0..n_phases {
+        let t0 = 500 + phase * phase_len;
+        version += 1;
+        // 1..2 edits, then the signal
+        for _ in 0..r.range(1, 2) {
+            let action = match r.below(10) {
+                0..=3 if !present.is_empty() => {
+                    let (p, a) = r.pick(&present).clone();
+                    OperatorAction::Write { path: p, content: c19_zone_content(&a, version, r.chance(0.5)) }
+                }
+                4 | 5 if !present.is_empty() => {
+                    let (p, a) = r.pick(&present).clone();
+                    OperatorAction::Write { path: p, content: c19_corrupt(&mut r, &a) }
+                }
+                6 if !present.is_empty() => {
+                    let i = r.below(present.len() as u64) as usize;
+                    let (p, a) = present.remove(i);
+                    removed.push((p.clone(), a));
+                    OperatorAction::Remove { path: p }
+                }
+                7 if !removed.is_empty() => {
+                    let i = r.below(removed.len() as u64) as usize;
+                    let (p, a) = removed.remove(i);
+                    present.push((p.clone(), a.clone()));
+                    OperatorAction::Write { path: p, content: c19_zone_content(&a, version, true) }
+                }
+                8 => OperatorAction::Write {
+                    path: format!("hosts/{:02}-hosts", r.range(10, 30)),
+                    content: if r.chance(0.8) {
+                        format!("192.168.{}.1 printer.lan\n", version % 250)
+                    } else {
+                        "not-an-address printer.lan\n".to_string()
+                    },
+                },
+                _ => {
+                    // a new file for an apex (in the directory)
+                    let apex = *r.pick(&C19_APEXES);
+                    let p = format!("zones/{:02}-{}-extra.zone", r.range(40, 60), apex.trim_end_matches('.'));
+                    if !present.iter().any(|(q, _)| *q == p) {
+                        present.push((p.clone(), apex.to_string()));
+                    }
+                    OperatorAction::Write { path: p, content: c19_zone_content(apex, version, true) }
+                }
+            };
+            operator.push(OperatorStep { at_ms: t0, action });
+        }
+        operator.push(OperatorStep { at_ms: t0 + 5, action: OperatorAction::Signal });
+        if r.chance(0.25) {
+            operator.push(OperatorStep { at_ms: t0 + 5 + r.range(0, 30), action: OperatorAction::Signal });
+        }
+        operator.push(OperatorStep { at_ms: t0 + phase_len - 100, action: OperatorAction::Snapshot });
+        // queries before, during and after the reload
+        for _ in 0..r.range(2, 8) {
+            let off = *r.pick(&[0u64, 3, 5, 6, 8, 12, 20, 40, 80, 200, 600, 1200]);
+            let at = if r.chance(0.2) { t0.saturating_sub(r.range(1, 50)) } else { t0 + off };
+            ask(at, &mut r, &mut messages);
+        }
+    }
+    let mut faults = BTreeMap::new();
+    let mut params = BTreeMap::new();
+    params.insert("fs.latency.max_ms".into(), *r.pick(&[0u64, 5, 20, 60]));
+    faults.insert("fs.read_delay".into(), 0.6);
+    faults.insert("fs.list_delay".into(), 0.6);
+    faults.insert("fs.list_order".into(), 0.5);
+    faults.insert("fs.read_error".into(), *r.pick(&[0.0, 0.0, 0.05, 0.2]));
+    faults.insert("fs.list_error".into(), *r.pick(&[0.0, 0.0, 0.05]));
+    let max_extra = *r.pick(&[0u64, 4, 19]);
+    params.insert("net.latency.max_extra_ms".into(), max_extra);
+    if max_extra > 0 {
+        faults.insert("udp.delay".into(), 0.7);
+        faults.insert("tcp.delay".into(), 0.7);
+    }
+    ServerPlan {
+        knobs: ServerKnobsPlan {
+            authoritative_only: true,
+            forwarding: false,
+            protocol_mode: "only-v4".into(),
+            cache_size: 512,
+            upstream: ServerKnobs::default(),
+            faults,
+            params,
+        },
+        universe: Universe::default(),
+        dirs: vec!["zones".into(), "hosts".into(), "explicit".into(), "zones/subdir".into()],
+        files,
+        args,
+        messages,
+        operator,
+        probes: vec![("ver.v.test.".into(), "TXT".into())],
+    }
+}
+
+/// Run the loader in isolation over exactly the results one load was given.
+fn replay_load(seed: u64, root: &std::path::Path, args: &ServerArgs, events: &[simseam::fs::FsEvent]) -> Option<Zones> {
+    let rt = crate::resolve_engine::make_runtime(seed);
+    let abs = |v: &Vec<String>| -> Vec<std::path::PathBuf> { v.iter().map(|p| root.join(p)).collect() };
+    let (hf, hd, zf, zd) = (abs(&args.hosts_file), abs(&args.hosts_dir), abs(&args.zone_file), abs(&args.zones_dir));
+    let out = rt.block_on(async {
+        simseam::clock::use_tokio();
+        let mut w = simseam::world::World::new(seed);
+        w.fs.root = root.to_path_buf();
+        w.fs.set_replay(events);
+        simseam::world::install(w);
+        let z = resolved::fs::load_zone_configuration(&hf, &hd, &zf, &zd).await;
+        simseam::world::uninstall();
+        simseam::clock::unset();
+        z
+    });
+    drop(rt);
+    out
+}
+
+fn zones_equal(a: &Zones, b: &Zones) -> Option<String> {
+    for apex in C19_APEXES.iter().chain(std::iter::once(&".")) {
+        let name = dn(apex);
+        let za = a.get(&name).filter(|z| z.get_apex() == &name);
+        let zb = b.get(&name).filter(|z| z.get_apex() == &name);
+        if za != zb {
+            return Some((*apex).to_string());
+        }
+    }
+    None
+}
+
+fn oracle_c19(plan: &ServerPlan, obs: &ServerObs, seed: u64) -> RunResult {
+    use simseam::fs::FsEvent;
+    let mut res = RunResult {
+        shape: obs.log_hash,
+        log_hash: obs.log_hash,
+        log_events: obs.log_events,
+        sim_ms: obs.sim_ms,
+        stats: obs.stats.clone(),
+        taken: obs.taken.clone(),
+        log_text: obs.log_text.clone(),
+        ..RunResult::default()
+    };
+    let bump = |stats: &mut BTreeMap<String, u64>, k: &str| *stats.entry(k.to_string()).or_insert(0) += 1;
+    if !obs.started {
+        // an unlucky injected read error at start-up: main() would exit
+        bump(&mut res.stats, "inconclusive.startup_load_failed");
+        return res;
+    }
+    // split the file-access log into loads
+    let mut loads: Vec<(u64, Vec<FsEvent>)> = vec![(0, Vec::new())];
+    for e in &obs.fs_log {
+        match e {
+            FsEvent::Mark { at_ms } => loads.push((*at_ms, Vec::new())),
+            other => loads.last_mut().unwrap().1.push(other.clone()),
+        }
+    }
+    // the versions that must have been in force
+    let mut versions: Vec<Zones> = vec![obs.versions[0].1.clone()];
+    let mut swap_from: Vec<u64> = vec![0];
+    for (at, events) in loads.iter().skip(1) {
+        let mut expected = replay_load(seed, &obs.root, &plan.args, events);
+        // independently of the loader's own error accounting: a load that met
+        // an unreadable directory or file, or a file that does not parse,
+        // must not produce a configuration
+        let is_hosts = |p: &std::path::Path| {
+            let rel = p.strip_prefix(&obs.root).unwrap_or(p).to_string_lossy().to_string();
+            plan.args.hosts_file.contains(&rel) || plan.args.hosts_dir.iter().any(|d| rel.starts_with(&format!("{d}/")))
+        };
+        let must_fail = events.iter().any(|e| match e {
+            FsEvent::List { outcome: simseam::fs::FsOutcome::Err(_), .. }
+            | FsEvent::Read { outcome: simseam::fs::FsOutcome::Err(_), .. } => true,
+            FsEvent::Read { path, outcome: simseam::fs::FsOutcome::Ok(text) } => {
+                if is_hosts(path) {
+                    dns_types::hosts::types::Hosts::deserialise(text).is_err()
+                } else {
+                    dns_types::zones::types::Zone::deserialise(text).is_err()
+                }
+            }
+            _ => false,
+        });
+        if must_fail {
+            bump(&mut res.stats, "probe.reload_met_unreadable_or_invalid_file");
+            expected = None;
+        }
+        let prev = versions.last().unwrap().clone();
+        match expected {
+            Some(z) => {
+                bump(&mut res.stats, "probe.reload_succeeded");
+                versions.push(z);
+            }
+            None => {
+                bump(&mut res.stats, "probe.reload_failed");
+                versions.push(prev);
+            }
+        }
+        swap_from.push(*at);
+    }
+    // quiescent snapshots: the configuration behind the lock is the expected one
+    let snapshots = &obs.versions[1..];
+    let mut quiesce_of: Vec<u64> = vec![0; versions.len()];
+    for k in 1..versions.len() {
+        // first snapshot after the k-th signal delivery
+        quiesce_of[k] = snapshots
+            .iter()
+            .map(|(t, _)| *t)
+            .find(|t| *t > swap_from[k])
+            .unwrap_or(u64::MAX);
+    }
+    for (t, snap) in snapshots {
+        let k = swap_from.iter().filter(|s| **s <= *t).count() - 1;
+        // a reload signalled within the last moments may still be running
+        if let Some(apex) = zones_equal(snap, &versions[k]) {
+            let stale = k > 0 && zones_equal(snap, &versions[k - 1]).is_none();
+            let failed_load_applied = loads.get(k).is_some_and(|(_, ev)| {
+                ev.iter().any(|e| matches!(e, FsEvent::Read { outcome: simseam::fs::FsOutcome::Err(_), .. } | FsEvent::List { outcome: simseam::fs::FsOutcome::Err(_), .. }))
+            });
+            res.violations.push(
+                Violation::new("c19.configuration_not_as_expected")
+                    .fact("still_previous_version", stale)
+                    .fact("load_had_read_error", failed_load_applied)
+                    .detail(json!({
+                        "at_ms": t, "after_reload": k, "differs_at_apex": apex,
+                        "load": loads.get(k).map(|(at, ev)| json!({"signal_at": at, "events": ev.iter().map(|e| match e {
+                            FsEvent::List { dir, outcome } => format!("list {} {}", dir.file_name().map_or_else(String::new, |f| f.to_string_lossy().to_string()), match outcome { simseam::fs::FsOutcome::Ok(v) => format!("{} entries", v.len()), simseam::fs::FsOutcome::Err(k) => format!("{k:?}") }),
+                            FsEvent::Read { path, outcome } => format!("read {} {}", path.file_name().map_or_else(String::new, |f| f.to_string_lossy().to_string()), match outcome { simseam::fs::FsOutcome::Ok(s) => format!("{} bytes", s.len()), simseam::fs::FsOutcome::Err(k) => format!("{k:?}") }),
+                            FsEvent::Mark { .. } => String::new(),
+                        }).collect::<Vec<_>>()})),
+                    })),
+            );
+        }
+    }
+    // every reply is one version's answer
+    for o in &obs.messages {
+        let m = &plan.messages[o.index];
+        let a = o.sent_ms;
+        let b = o.replies.first().map_or(a + m.listen_ms, |(t, _)| *t);
+        let hi = swap_from.iter().filter(|s| **s <= b).count() - 1;
+        let lo = (0..versions.len()).rev().find(|k| quiesce_of[*k] <= a).unwrap_or(0);
+        let mut last: Vec<Violation> = Vec::new();
+        let mut ok = false;
+        for k in lo..=hi {
+            let mut vs = Vec::new();
+            let mut scratch = BTreeMap::new();
+            judge_message(plan, &versions[k], m, o, &mut vs, &mut scratch, true);
+            if vs.is_empty() {
+                ok = true;
+                break;
+            }
+            last = vs;
+        }
+        if hi > lo {
+            bump(&mut res.stats, "probe.query_overlaps_reload");
+        }
+        if !ok {
+            for mut v in last {
+                let mixed = v.kind == "c09.sections_differ_from_resolver";
+                v.kind = format!("c19.reply_matches_no_version_in_force.{}", v.kind.trim_start_matches("c09."));
+                v = v.fact("candidates", (hi - lo + 1) as u64).fact("sections_differ", mixed);
+                res.violations.push(v);
+            }
+        }
+    }
+    let (tcp, udp, reload, prune) = obs.tasks_alive;
+    if !(tcp && udp && reload && prune) {
+        res.violations.push(Violation::new("c19.server_task_died").detail(json!({
+            "tcp_listener": tcp, "udp_listener": udp, "reload_task": reload, "prune_task": prune
+        })));
+    }
+    for p in &obs.probes {
+        if p.replies.len() != 1 {
+            res.violations.push(Violation::new("c19.not_serving_after_run").detail(json!({"probe": p.index})));
+        }
+    }
+    if obs.signals_raised > obs.signals_delivered {
+        bump(&mut res.stats, "probe.signal_coalesced_run");
+    }
+    res.nontrivial = loads.len() > 1;
+    res.shape = simseam::hash_bytes(
+        obs.log_hash,
+        format!("{:?}", plan.operator.iter().map(|s| format!("{:?}", s.action).chars().take(12).collect::<String>()).collect::<Vec<_>>()).as_bytes(),
+    );
+    res.sample = Some(json!({
+        "files": plan.files.iter().map(|f| f.path.clone()).collect::<Vec<_>>(),
+        "operator": plan.operator.iter().take(12).map(|s| format!("@{}ms {}", s.at_ms, match &s.action {
+            crate::server_engine::OperatorAction::Write { path, content } => format!("write {path} ({} bytes)", content.len()),
+            crate::server_engine::OperatorAction::Remove { path } => format!("remove {path}"),
+            crate::server_engine::OperatorAction::Mkdir { path } => format!("mkdir {path}"),
+            crate::server_engine::OperatorAction::Signal => "SIGUSR1".into(),
+            crate::server_engine::OperatorAction::Snapshot => "snapshot".into(),
+        })).collect::<Vec<_>>(),
+        "queries": plan.messages.len(),
+    }));
+    res
+}
+
+impl Property for C19 {
+    fn id(&self) -> &'static str {
+        "C19"
+    }
+    fn level(&self) -> &'static str {
+        "fault_enumeration"
+    }
+    fn engine(&self) -> &'static str {
+        "simworld/server"
+    }
+    fn budget(&self, tier: Tier) -> u64 {
+        match tier {
+            Tier::Quick => 10_000,
+            Tier::Thorough => 200_000,
+        }
+    }
+    fn plan(&self, seed: u64, index: u64, tier: Tier) -> Value {
+        serde_json::to_value(gen_c19(seed, index, tier)).unwrap()
+    }
+    fn execute(&self, plan: &Value, exec: &Exec, want_log: bool) -> RunResult {
+        let plan: ServerPlan = serde_json::from_value(plan.clone()).expect("HARNESS: bad server plan");
+        let obs = server_engine::run_keep(&plan, exec, want_log, true);
+        let res = oracle_c19(&plan, &obs, exec.seed());
+        let _ = std::fs::remove_dir_all(&obs.root);
+        res
+    }
+    fn shrink(&self, plan: &Value) -> Vec<Value> {
+        let plan: ServerPlan = serde_json::from_value(plan.clone()).unwrap();
+        shrink_server_plan(&plan)
+            .into_iter()
+            .map(|p| serde_json::to_value(p).unwrap())
+            .collect()
+    }
+    fn rule(&self) -> String {
+        "an authoritative-only server over -z/-Z/-A arguments; 1..6 phases, each 1..2 operator edits (replace a zone file with a new version, corrupt it in five ways, remove it, restore it, add a new file to the directory, add or corrupt a hosts file; whole-file replacement by rename) followed by SIGUSR1 (sometimes twice), with UDP and TCP queries 50 ms before to 1.2 s after the signal and injected read and listing errors and latencies in the file seam; record data carries the configuration version. Oracle: for every reload the expected configuration is what load_zone_configuration gives when run in isolation over exactly the results that reload was given (none = stay); the configuration behind the lock at every quiescent point equals it; every reply equals the answer of one version that was in force between its receipt and its dispatch; listeners alive and probes answered. Non-trivial = at least one SIGUSR1 delivered; distinct = distinct (operator script shape, event log)".into()
+    }
+    fn assumptions(&self) -> Vec<String> {
+        vec![
+            "files are edited by whole-file replacement; a file edited while a reload is reading is read in whichever version the read met (the oracle uses the bytes actually read)".into(),
+            "the loader and the resolver are the reference for what a version answers (C12 judges merging)".into(),
+            "a reload is expected to be complete 1.9 s after its signal (authoritative-only requests hold the read lock for no virtual time)".into(),
+            "tokio's RwLock and mpsc are trusted".into(),
+        ]
+    }
+    fn components(&self) -> Value {
+        json!({
+            "real": ["resolved main.rs: reload_task, listen_udp_task, listen_tcp_task, resolve_and_build_response (zones read lock), prune_cache_task", "resolved::fs::load_zone_configuration", "zone and hosts parsers, Zones::insert_merge"],
+            "stub": ["SIGUSR1 (simseam::signal, coalescing)", "file access primitives with injected errors/latency", "operator and clients (harness actors)", "sockets", "main()'s wiring (verif::start)"],
+        })
+    }
+}
